@@ -355,6 +355,31 @@ def unit_canonical_flatten(S):
             same = sand(*[ir.seq(fx.at((i,)), fy.at((i,))) for i in range(sp.flat_size)])
             S.prove(f"flatten[{nm}]/determines-the-sample", ctx, ir.simplies(same, kit.tree_eq(x, y)), function="lerax.space:*.flatten_sample",
                     what="equal flattenings imply equal samples, leaf by leaf (the flat numbers determine the sample)")
+    # Dict: the flat layout is fixed by the SPACE (its key order), whatever order the member's own keys were inserted in (contains() compares keys as a set, so every order is a member)
+    dsp = Dict(OrderedDict([("vel", Box(-jnp.ones((2,)), jnp.ones((2,)))), ("pos", Box(-jnp.ones((1,)), jnp.ones((1,)))), ("flag", MultiBinary(2))]))
+    names = list(dsp.spaces.keys())
+    structs = dict(vel=sd((2,), f32), pos=sd((1,), f32), flag=sd((2,), jnp.bool_))
+
+    def dict_order_replay(model):
+        rng = np.random.RandomState(2)
+        vals = dict(vel=jnp.asarray(rng.uniform(-1, 1, 2), f32), pos=jnp.asarray(rng.uniform(-1, 1, 1), f32), flag=jnp.asarray([True, False]))
+        exp = np.concatenate([np.asarray(dsp.spaces[k_].flatten_sample(vals[k_]), np.float64) for k_ in names])
+        for perm in itertools.permutations(names):
+            for mk in (OrderedDict,):
+                sample = mk((k_, vals[k_]) for k_ in perm)
+                got = np.asarray(dsp.flatten_sample(sample), np.float64)
+                if not bool(dsp.contains(sample)) or got.shape != exp.shape or not np.allclose(got, exp):
+                    return dict(reproduced=True, route="R1 (real Dict.flatten_sample on a member whose keys are inserted in another order)", inputs=dict(space_key_order=names, sample_key_order=list(perm), container=mk.__name__),
+                                observed=dict(flat=got.tolist(), expected=exp.tolist(), contains=bool(dsp.contains(sample))))
+        return dict(reproduced=False, note="all 6 insertion orders flatten to the space's layout")
+    for perm in itertools.permutations(names):
+        ctx = Ctx()
+        xs = {k_: sym(ctx, k_, structs[k_]) for k_ in names}
+        got = run(ctx, lambda *vs, perm=perm: dsp.flatten_sample(OrderedDict((k_, v) for k_, v in zip(perm, vs))), *[xs[k_] for k_ in perm])
+        spec = run(ctx, lambda *vs: jnp.concatenate([dsp.spaces[k_].flatten_sample(v) for k_, v in zip(names, vs)]), *[xs[k_] for k_ in names])
+        S.prove(f"flatten[Dict]/layout-fixed-by-the-space[sample keys {'>'.join(perm)}]", ctx, kit.tree_eq(got, spec) if tuple(got.shape) == tuple(spec.shape) else z3.BoolVal(False),
+                function="lerax.space.dict:Dict.flatten_sample", replay=dict_order_replay,
+                what="flatten_sample lays the sub-samples out in the space's key order whatever the insertion order of the member's keys: the flat numbers determine the sample")
     bad, n = native_canonical_flatten(int(S.seed))
 
     def rp(model):
